@@ -256,6 +256,25 @@ fn main() {
     sink.merge(struct_sweep(&run, &[&SCT], &cat::scts(thorough), d, &sfx, 64, &locality));
     sink.merge(struct_sweep(&run, &[&SCT_LIST], &cat::sct_lists(thorough), d, &sfx, 64, &locality));
 
+    // signatures whose content is DER with an inner length that over- / understates what the field holds (short and long form),
+    // nested DER with trailing bytes, under the DSA / ECDSA / RSA / EdDSA algorithm pairs: the value never reaches past the field
+    for style in [10u8, 11, 12, 13, 14, 20, 21] {
+        use vcommon::en::with_fill_style as wfs;
+        let mut sigs: Vec<W> = Vec::new();
+        for alg in [0x0403u16, 0x0402, 0x0203, 0x0401, 0x0807, 0x0000] {
+            for n in [2usize, 3, 8, 10, 40, 72, 100, 130] {
+                sigs.push(wfs(style, || {
+                    let mut w = W::new();
+                    w.u16(alg);
+                    w.block(2, "sig_len", |w| {
+                        w.fill(n, 0x41);
+                    });
+                    w
+                }));
+            }
+        }
+        sink.merge(struct_sweep(&run, &[&SIGNED], &sigs, 0, &sfx, 8, &locality));
+    }
     // the same encodings under foreign outer headers (DER OCTET STRING / SEQUENCE, length prefixes, record /
     // handshake / extension headers): a parser that recognises and strips one decides by what follows
     {
